@@ -110,20 +110,25 @@ def gen_mixfit(g, kind=None, thorough=False):
                           30 if kind != 'cbmm' else 12))
     if kind != 'cbmm' and g.coin(0.05):
         N = int(g.rng.randint(260, 600))    # size-dependent code paths
+    if kind in ('gmm', 'gcacgmm') and g.coin(0.04):
+        N = int(g.rng.randint(4200, 6000)) // max(F, 1)
     a = {'op': 'mixfit', 'kind': kind, 'K': K, 'D': D, 'F': F, 'N': N, 'E': E}
     if kind in models.COMPLEX_OBS:
         a['obs'] = _mk(g, g.choice(['cnormal', 'cclusters', 'cclusters']),
                        lead + [N, D], K=K,
-                       spread=float(g.choice([1.0, 1.0, 0.3, 0.05, 0.01])))
+                       spread=float(g.choice([1.0, 1.0, 0.3, 0.05, 0.01])),
+                       dynamic_range=float(g.choice([0, 0, 0, 6, 12])))
     elif kind == 'vmfmm':
         a['obs'] = _mk(g, g.choice(['normal', 'rclusters']), lead + [N, D], K=K,
                        sep=float(g.choice([2.0, 2.0, 6.0, 30.0])))
     else:
         a['obs'] = _mk(g, 'rclusters', lead + [N, D], K=K,
-                       scale=float(g.choice([1.0, 1.0, 1e-2, 30.0])))
+                       scale=float(g.choice([1.0, 1.0, 1e-2, 30.0])),
+                       order=g.choice(['shuffled', 'sorted']))
     if kind == 'gcacgmm':
         a['emb'] = _mk(g, 'rclusters', lead + [N, E], K=K,
-                       scale=float(g.choice([1.0, 1.0, 1e-2, 30.0])))
+                       scale=float(g.choice([1.0, 1.0, 1e-2, 30.0])),
+                       order=g.choice(['shuffled', 'sorted']))
     if kind == 'vmfcacgmm':
         a['emb'] = _mk(g, 'unit_rows', lead + [N, E])
     start = g.choice(['array', 'array', 'array', 'num_classes'])
